@@ -55,6 +55,34 @@ def handle (line : String) : String :=
       match parseFormula f, n.toNat?, parseEnv sigs with
       | some φ, some n, some w => showRes (evalOff Generated.offlineDiscrete.handles w n φ)
       | _, _, _ => "bad-input"
+  | "ond" :: f :: n :: sigs =>
+      match parseFormula f, n.toNat?, parseEnv sigs with
+      | some φ, some n, some w =>
+          let es := (List.range n).map (fun t => fun x => sigma w x t)
+          showRes (runOnline Generated.onlineDiscrete.handles Generated.onlineDiscrete.raises φ es)
+      | _, _, _ => "bad-input"
+  | "past" :: f :: _ =>
+      match parseFormula f with
+      | some φ =>
+          match hor? φ with
+          | some h => s!"ok {h} | {showF (pastify φ)}"
+          | none => "err rtamt"
+      | none => "bad-input"
+  | "frag" :: name :: f :: _ =>
+      match parseFormula f with
+      | some φ =>
+          let b : Option Bool := match name with
+            | "frag" => some φ.frag
+            | "futureFree" => some φ.futureFree
+            | "bounded" => some φ.bounded
+            | "online" => some φ.online
+            | "wf" => some φ.wf
+            | _ => none
+          match b with
+          | some true => "1"
+          | some false => "0"
+          | none => "bad-op"
+      | none => "bad-input"
   | "echo" :: f :: _ =>
       match parseFormula f with
       | some φ => "ok " ++ showF φ
